@@ -4,9 +4,6 @@
    hex fields; "-" empty string, "~" none, "." empty list; lists comma separated; oracle = text:canon pairs, canon "!" = error *)
 let toks_of s = if s = "." then [] else List.map bytes_of_hex (String.split_on_char ',' s)
 let opt_of s = if s = "~" then None else Some (bytes_of_hex s)
-(* <b64set> is "0" / "1", with a trailing "!" when the document of the effective JSON carrier is empty, blank or not JSON *)
-let bad_of s = String.length s > 0 && s.[String.length s - 1] = '!'
-let b64_of s = String.length s > 0 && s.[0] = '1' 
 let kind_of = function
   | "bool" -> KBool | "int" -> KInt | "int64" -> KInt64 | "uint" -> KUint | "uint64" -> KUint64
   | "string" -> KString | "float64" -> KFloat | "duration" -> KDuration | "bytes" -> KBytes
@@ -36,9 +33,9 @@ let () =
         incr cases;
         let fos = take_fields (int_of_string n) blocks [] in
         fields := !fields + List.length fos;
-        let v = check_case (n_of_int (int_of_string isz)) fos (toks_of vec) (opt_of cfgfile) (b64_of b64set) (ok = "1") (toks_of rest)
+        let v = check_case (n_of_int (int_of_string isz)) fos (toks_of vec) (opt_of cfgfile) (b64set = "1") (ok = "1") (toks_of rest)
                   (if help = "~" then None else Some (help = "1"))
-                  (n_of_int (int_of_string callno)) (unchanged = "1") (bad_of b64set) in
+                  (n_of_int (int_of_string callno)) (unchanged = "1") in
         skipped := !skipped + int_of_n v.v_skipped;
         if ok <> "1" then incr failed;
         if not (verdict_spec_ok v) then begin
